@@ -34,6 +34,9 @@ Accept(e) ==
          /\ k >= 1 /\ e.decs[k] = 0 /\ \A i \in 1..(k - 1) : e.decs[i] > 0   \* stops at the first NUL or undecodable byte
          /\ e.count = k - 1                                                   \* one code point per accepted sequence
          /\ e.stop = SumSeq(e.decs, 1) /\ e.stop <= e.num                     \* advances by exactly the reported lengths
+         \* the unvalidating counter (for text known to be well formed) agrees whenever the text is well formed up to its
+         \* end or its first NUL
+         /\ ("fast" \in DOMAIN e /\ (e.stop = e.num \/ e.b[e.stop + 1] = 0) => e.fast = e.count)
     [] OTHER -> FALSE
 
 TraceInit == l = 1
